@@ -35,7 +35,7 @@ RULE = ("a case = (obs sandboxed ooo pipeline fine programs schedule): 2-3 view 
         "Resource and OnceResource whose fetcher reads context before and after a gate / on_cleanup / StoredValue "
         "and RwSignal allocation + later read / a reactive_graph::spawn background task reading a handle (oracle-only cases); rendered concurrently like integrations/utils build_response + from_app "
         "(hand transcription, or the real from_app in the sandboxed build) on the harness-owned executor. Coarse "
-        "schedules (start / complete gate g / run request to quiescence / finish) are enumerated exhaustively as all "
+        "schedules (start = build_response + first poll / create = build_response only, first poll later / complete gate g / run request to quiescence / finish) are enumerated exhaustively as all "
         "interleavings of the two requests' action lists for small program pairs and drawn from the PRNG (VERIF_SEED) "
         "beyond, each in 4 configurations (arenas global or sandboxed x in-order or out-of-order streaming) and emitted "
         "twice: obs=0 (abstract trace, compared with the Coq model) and obs=1 (responses + solo replays, for the "
@@ -193,8 +193,10 @@ def interleavings(a, b):
         yield out
 
 
-def req_actions(r):
-    return [[0, r], [2, r], [1, r, 0], [2, r], [3, r]]
+def req_actions(r, create=False):
+    """create: build_response now, first poll at the next run (both requests may thus exist
+    before either response future has been polled once)"""
+    return [[4 if create else 0, r], [2, r], [1, r, 0], [2, r], [3, r]]
 
 
 def coarse_sched(rng, n, ngates, length):
@@ -202,7 +204,7 @@ def coarse_sched(rng, n, ngates, length):
     for _ in range(length):
         r = rng.randrange(1, n + 1)
         if r not in started:
-            s.append([0, r])
+            s.append([4 if rng.random() < 0.5 else 0, r])
             started.add(r)
             continue
         k = rng.random()
@@ -226,7 +228,9 @@ def generate(rng, tier):
     pairs = [(0, 1), (2, 3), (4, 5)] if quick else [(i, j) for i in range(len(SMALL)) for j in range(i, len(SMALL))]
     k = 0
     for (i, j) in pairs:
-        for sched in interleavings(req_actions(1), req_actions(2)):
+        scheds = list(interleavings(req_actions(1), req_actions(2))) + \
+            list(interleavings(req_actions(1, True), req_actions(2, True)))
+        for sched in scheds:
             k += 1
             sb, ooo = (k >> 1) & 1, k & 1
             if not quick:
@@ -366,7 +370,7 @@ def valid_case(item):
     for a in sched:
         if not (isinstance(a, list) and len(a) in (2, 3) and all(isinstance(x, int) for x in a)):
             return False
-        if not (0 <= a[0] <= 3 and 1 <= a[1] <= len(progs) and (len(a) == 3) == (a[0] == 1) and (len(a) < 3 or 0 <= a[2] < 8)):
+        if not (0 <= a[0] <= 4 and 1 <= a[1] <= len(progs) and (len(a) == 3) == (a[0] == 1) and (len(a) < 3 or 0 <= a[2] < 8)):
             return False
     return True
 
@@ -452,7 +456,7 @@ def nontrivial(item, model):
         return len(sched) >= 4
     started, open_, overlap = set(), set(), False
     for a in sched:
-        if a[0] == 0:
+        if a[0] in (0, 4):
             started.add(a[1])
             open_.add(a[1])
         elif a[0] == 3:
@@ -472,7 +476,7 @@ def describe(it):
         head = names[p[0]] if isinstance(p[0], int) and 0 <= p[0] < len(names) else str(p[0])
         return head + "(" + ", ".join(pv(x) if isinstance(x, list) else str(x) for x in p[1:]) + ")"
 
-    acts = {0: "start", 1: "gate", 2: "run", 3: "finish"}
+    acts = {0: "start", 1: "gate", 2: "run", 3: "finish", 4: "create"}
     if c[4]:
         sched = "fine picks %r" % (c[6],)
     else:
